@@ -49,7 +49,15 @@ def run(chk):
         det = src(v)
         if isinstance(v, ast.Call) and dotted(v.func) == "range":
             if len(v.args) == 1 and isinstance(v.args[0], ast.Starred) and isinstance(v.args[0].value, ast.Call) and src(v.args[0].value.func) == f"{key}.indices":
-                ok = True
+                arg = v.args[0].value.args[0] if v.args[0].value.args else None
+                if isinstance(arg, ast.Name) and fg.one_def(arg.id) is not None:
+                    arg = fg.one_def(arg.id)
+                ok = arg is not None and src(arg) == "len(self.variable.od)"
+                if not ok:
+                    chk.bad("R1", f"{V}:Bits._get_bits | slice", gb.loc(branches["slice"]),
+                            f"slice bounds are resolved against `{src(arg) if arg is not None else '?'}` instead of the variable's bit length len(self.variable.od): "
+                            f"slices that reach the most significant bit come out short (or run past the type)")
+                    ok = None
             else:
                 raw = [a for a in v.args if isinstance(a, ast.Attribute) and src(a) in (f"{key}.start", f"{key}.stop", f"{key}.step")]
                 if raw:
